@@ -809,13 +809,45 @@ def rule_LZC(ctx):
                 walk(subs[0] if subs else [], conds + [(s[2], True, stmts[:i])])
             else:
                 hit = []
+                here = conds + [(("int", 1), True, stmts[:i])]
                 for x in s:
                     if isinstance(x, tuple):
                         cast.walk_expr(x, lambda y: hit.append(y) if y[0] == "call" and y[1] == "chunk_state_output" and y[2] and y[2][0] == ("un", "&", ("member", ("var", "self", "param"), "chunk")) else None)
                 if hit:
-                    found.append((s, conds))
+                    found.append((s, here))
     walk(f["body"], [])
     ctx.ob(len(found) >= 1, "c-own-chunk-output-sites", where(t, f["line"]), "%d use(s) of chunk_state_output(&self->chunk) in update" % len(found))
+    def more_input_by_subtraction(conds, site):
+        """second accepted form: an earlier `if (input_len <= V) { ...; return; }` leaves input_len > V, and the statements up to
+        the site subtract exactly V from input_len (V not reassigned in between): input_len > 0 at the site"""
+        N = r_cbudget_norm
+        pre = []
+        for c, truth, before in conds:
+            pre.extend(before)
+        # statements of the innermost list that precede the site
+        for k, st in enumerate(pre):
+            if st[0] != "if":
+                continue
+            subs = [x for x in st if isinstance(x, list)]
+            c = N(st[1])
+            if not (len(subs) >= 1 and subs[0] and subs[0][-1][0] == "return" and (len(subs) == 1 or not subs[1])):
+                continue
+            if not (c[0] == "bin" and c[1] == "<=" and c[2] == ("var", "input_len") and c[3][0] == "var"):
+                continue
+            V = c[3]
+            subtracted = False
+            clean = True
+            for later in pre[k + 1:]:
+                if later[0] == "assign" and N(later[2]) == V:
+                    clean = False
+                if later[0] == "assign" and N(later[2]) == ("var", "input_len"):
+                    if later[1] == "-=" and N(later[3]) == V and not subtracted:
+                        subtracted = True
+                    else:
+                        clean = False
+            if clean and subtracted:
+                return True
+        return False
     for s, conds in found:
         ok = False
         for c, truth, before in conds:
@@ -824,6 +856,8 @@ def rule_LZC(ctx):
                 c = c[1]
             if truth and c[0] == "bin" and c[1] in (">", "!=") and c[2][0] == "var" and c[2][1] == "input_len" and c[3] == ("int", 0):
                 ok = True
+        if not ok:
+            ok = more_input_by_subtraction(conds, s)
         ctx.ob(ok, "c-chunk-closed-only-with-more-input", where(t, s[-1] if isinstance(s[-1], int) else f["line"]),
                "chunk_state_output(&self->chunk) is taken under if (input_len > 0): %s (conditions: %s)" % (ok, [cshow(c)[:40] for c, tr, b in conds]))
 
@@ -1447,3 +1481,45 @@ def rule_X0C(ctx):
             if c in (("bin", "==", ("var", "outblocks"), ("int", 0)), ("un", "!", ("var", "outblocks"))) and subs and subs[0] and subs[0][0][0] == "return":
                 guard = True
     ctx.ob(guard, "c-xof-zero-blocks", where(d, f["line"]), "%s ; blake3_xof_many returns early for outblocks == 0: %s" % (unsafe_k[needs[0]][1], guard))
+
+
+def rule_TMC(ctx):
+    """tail merge (C): the CV stack is merged down to popcnt(chunk_counter) at the moment the hasher's own chunk state receives
+    its first bytes -- finalize folds the stack assuming exactly that.  Every chunk_state_update(&self->chunk, ..) in
+    blake3_hasher_update_base therefore sits under `chunk_state_len(&self->chunk) > 0` (the state was non-empty already, the
+    merge happened when it became so) or is followed, in the same statement list and before any return, by
+    hasher_merge_cv_stack(self, self->chunk.chunk_counter).  (Merging more often is harmless: the merge is idempotent.)"""
+    t = tu("c/blake3.c")
+    N = r_cbudget_norm
+    u = need(t, "blake3_hasher_update_base")
+    SELF = ("var", u["params"][0][0])
+    CHUNK = ("un", "&", ("member", SELF, "chunk"))
+    CTR = ("member", ("member", SELF, "chunk"), "chunk_counter")
+    nonempty = ("bin", ">", ("call", "chunk_state_len", (CHUNK,)), ("int", 0))
+    sites = []
+
+    def walk(stmts, guards):
+        for i, s in enumerate(stmts):
+            if s[0] == "if":
+                subs = [x for x in s if isinstance(x, list)]
+                walk(subs[0], guards + [(N(s[1]), True)])
+                if len(subs) > 1:
+                    walk(subs[1], guards + [(N(s[1]), False)])
+            elif s[0] == "loop":
+                subs = [x for x in s if isinstance(x, list)]
+                walk(subs[0] if subs else [], guards)
+            elif s[0] == "expr" and s[1][0] == "call" and s[1][1] == "chunk_state_update" and N(s[1][2][0]) == CHUNK:
+                merged = False
+                for later in stmts[i + 1:]:
+                    if later[0] == "return":
+                        break
+                    if later[0] == "expr" and N(later[1]) == ("call", "hasher_merge_cv_stack", (SELF, CTR)):
+                        merged = True
+                        break
+                sites.append((s[-1], (nonempty, True) in guards, merged))
+    walk(u["body"], [])
+    for line, guarded, merged in sites:
+        ctx.ob(guarded or merged, "c-own-chunk-bytes-imply-merged-stack#%d" % (sites.index((line, guarded, merged)) + 1), where(t, line),
+               "chunk_state_update(&self->chunk, ..) %s" % ("under chunk_state_len(&self->chunk) > 0" if guarded else "followed by hasher_merge_cv_stack(self, chunk_counter)" if merged
+                                                            else "may give an EMPTY chunk state its first bytes without merging the CV stack: finalize would fold an unmerged stack"))
+    ctx.floor("own-chunk update sites in blake3_hasher_update_base", len(sites), 2)
